@@ -244,13 +244,21 @@ func (f *frame) callBound(fn *ssa.Function, args []Val, bindings []Val, c *ssa.C
 func (f *frame) invoke(c *ssa.CallCommon, recv Val, args []Val, pos string) Val {
 	x := f.x
 	m := c.Method
-	f.safety("nil", "method call on nil interface "+c.Value.Name()+"."+m.Name(), Not(Eq(recv.Fs[0].S, "0")), pos)
 	iface := c.Value.Type()
+	if k := typeKey(iface) + "." + m.Name(); strings.HasPrefix(k, "log.Logger.") || strings.HasPrefix(k, "logrus.") {
+		x.vc.Assume["logging calls have no effect on verified state"] = true
+		return x.vc.zeroVal(m.Type().(*types.Signature).Results())
+	}
+	f.safety("nil", "method call on nil interface "+c.Value.Name()+"."+m.Name(), Not(Eq(recv.Fs[0].S, "0")), pos)
 	if m.Name() == "Error" && typeKey(iface) == "error" {
 		fn := x.vc.Fun("error.Error", []string{"Int", "Int"}, "String")
 		return Val{T: stringT, S: app(fn, recv.Fs[0].S, recv.Fs[1].S)}
 	}
 	cls := typeKey(iface) + "." + m.Name()
+	if strings.HasPrefix(cls, "log.Logger.") || strings.HasPrefix(cls, "logrus.") {
+		x.vc.Assume["logging calls have no effect on verified state"] = true
+		return x.vc.zeroVal(m.Type().(*types.Signature).Results())
+	}
 	if ct := x.prog.Externs[cls]; ct != nil {
 		return f.callContract(ct, m.Type().(*types.Signature), append([]Val{recv}, args...), pos, cls)
 	}
